@@ -39,7 +39,7 @@ pub fn parse_opts(args: &[String]) -> Opts {
                 i += 2;
             }
             "--files" => {
-                o.files = args[i + 1].split(',').map(|s| s.to_string()).collect();
+                o.files = args[i + 1].split(',').filter(|s| !s.is_empty()).map(|s| s.to_string()).collect();
                 i += 2;
             }
             _ => {
@@ -78,6 +78,7 @@ pub fn run(kind: &str, args: &[String]) -> i32 {
         "syntax" => syntax(&mut sink, &opts),
         "stream" => stream(&mut sink, &opts),
         "meta" => meta(&mut sink, &opts),
+        "retrace" => retrace(&mut sink, &opts),
         _ => {
             eprintln!("unknown trace kind {kind}");
             return 2;
@@ -264,5 +265,69 @@ fn meta(sink: &mut Sink, o: &Opts) {
             src = gen::mutate_file(&mut rng, &src);
         }
         meta_event(sink, &src);
+    }
+}
+
+/// answers of the three handles for one query, panics recorded as data
+pub fn three_answers(src: &[u8], qs: &[Value]) -> Vec<Value> {
+    use crate::handles::{parse_query, with_handle, HANDLES};
+    let parsed: Vec<_> = qs.iter().map(parse_query).collect();
+    let mut per_handle: Vec<Vec<Value>> = vec![];
+    for h in HANDLES {
+        let src2 = src.to_vec();
+        let pr = &parsed;
+        let res = guarded(std::panic::AssertUnwindSafe(move || {
+            with_handle(h, &src2, |handle| {
+                pr.iter()
+                    .map(|q| {
+                        let hr = std::panic::AssertUnwindSafe(handle);
+                        guarded(move || hr.answer(q)).unwrap_or_else(|p| json!({"panic": p}))
+                    })
+                    .collect::<Vec<_>>()
+            })
+        }));
+        per_handle.push(match res {
+            Ok(Ok(v)) => v,
+            Ok(Err(e)) => qs.iter().map(|_| json!({"error": e})).collect(),
+            Err(p) => qs.iter().map(|_| json!({"panic": p})).collect(),
+        });
+    }
+    (0..qs.len())
+        .map(|k| json!({"mapper": per_handle[0][k], "mapperp": per_handle[1][k], "cache": per_handle[2][k]}))
+        .collect()
+}
+
+/// C01..C04/C02: sessions of (mapping, queries over its universe) answered by the three handles
+fn retrace(sink: &mut Sink, o: &Opts) {
+    let mut rng = Rng::new(o.seed);
+    let per_session: usize = opt_value(o, "--queries").map(|s| s.parse().unwrap()).unwrap_or(100);
+    let focus = opt_value(o, "--focus").unwrap_or_else(|| "all".into());
+    let mut sessions: Vec<Vec<u8>> = vec![];
+    for f in &o.files {
+        sessions.push(std::fs::read(f).expect("corpus file"));
+    }
+    let cfg = gen::MapCfg { max_classes: 5, max_members: 7, wild: false, noise: true };
+    for k in 0..o.n {
+        let m = if focus == "names" { gen::mapping_many_classes(&mut rng, 20 + (k % 5) * 40) } else { gen::mapping(&mut rng, &cfg) };
+        // metamorphic variants as separate sessions: line endings
+        if rng.chance(1, 4) {
+            let crlf = String::from_utf8_lossy(&m).replace("\r\n", "\n").replace('\r', "\n").replace('\n', "\r\n").into_bytes();
+            sessions.push(crlf);
+        }
+        sessions.push(m);
+    }
+    for (sid, src) in sessions.iter().enumerate() {
+        sink.emit(json!({"t": "load", "sid": sid + 1, "src": enc::bytes(src)}));
+    }
+    for (sid, src) in sessions.iter().enumerate() {
+        let uni = gen::universe(src);
+        let mut qs: Vec<Value> = vec![];
+        for _ in 0..per_session {
+            qs.push(gen::query(&mut rng, &uni, &focus));
+        }
+        let answers = three_answers(src, &qs);
+        for (q, a) in qs.into_iter().zip(answers) {
+            sink.emit(json!({"t": "q", "sid": sid + 1, "q": q, "got": a}));
+        }
     }
 }
